@@ -13,6 +13,10 @@ or @fn (inside a function).  Core Lean only.
 namespace ESV.Cache
 
 def modelledShared : List (String × String) := [
+  ("ambient-read|included_usage_map.py|IncludedUsageMap.__init__|os.path.abspath",
+    "reads the process's environment (working directory through abspath/realpath of a relative path, …): not modelled; ./check C11 repeats every reference in other working directories and requires identical results"),
+  ("ambient-read|ssb_converting/ssb_compiler.py|ExplorerScriptSsbCompiler._resolve_imported_file|os.path.realpath",
+    "reads the process's environment (working directory through abspath/realpath of a relative path, …): not modelled; ./check C11 repeats every reference in other working directories and requires identical results"),
   ("antlr|antlr/ExplorerScriptLexer.py|ExplorerScriptLexer.atn",
     "not modelled: shared prediction caches of the generated parsers, mutated by the antlr4 runtime; history / schedule exploration only (known finding: ParseError message)"),
   ("antlr|antlr/ExplorerScriptLexer.py|ExplorerScriptLexer.decisionsToDFA",
